@@ -318,7 +318,7 @@ impl Property for C12 {
     }
 
     fn label_floors(&self) -> Vec<(&'static str, f64)> {
-        vec![("multi-file", 0.2), ("no-final-newline", 0.1), ("crlf", 0.1), ("named-pipe", 0.1)]
+        vec![("multi-file", 0.2), ("no-final-newline", 0.1), ("crlf", 0.1)]
     }
 
     fn generate(&self, t: &mut Tape, ctx: &Ctx) -> Case {
